@@ -262,7 +262,15 @@ func minMaxIssues(rs *Resid, fn *ast.FuncDecl, dir int) ([]sideIssue, string) {
 	ast.Inspect(fn.Body, func(n ast.Node) bool {
 		rng, ok := n.(*ast.RangeStmt)
 		if !ok {
-			return true
+			// for i := 1; i < len(list); i++ { … list[i] … } is for _, v := range list[1:] { … v … }
+			if fs, isFor := n.(*ast.ForStmt); isFor {
+				if rng = rangeOfIndexLoop(fs); rng != nil {
+					ok = true
+				}
+			}
+			if !ok {
+				return true
+			}
 		}
 		for _, st := range rng.Body.List {
 			ifs, ok := st.(*ast.IfStmt)
@@ -700,7 +708,8 @@ func minMaxRules(c *Ctx) {
 			c.Rep.fail(Finding{Rule: "R9", Key: "R9|min-max|unpaired", Plugin: "max", Msg: "min has an accepted path (script " + k + ") that max lacks: the two plugins no longer mirror each other"})
 			continue
 		}
-		flip := strings.NewReplacer(" < ", " > ", " > ", " < ").Replace(tmin)
+		// the order operators between values are exchanged; a loop bound `i < len(list)` is not one of them
+		flip := strings.NewReplacer(" < len(", " < len(", " < ", " > ", " > ", " < ").Replace(tmin)
 		if flip == tmax {
 			c.Rep.pass("R9")
 		} else {
